@@ -25,6 +25,39 @@ CLAIMS = {
         technique="Coq proof over executable model + API-level differential correspondence (extracted OCaml)"),
 }
 
+CLAIMS.update({
+    "C03": dict(
+        text=("Theorems (closed under the global context) about the model of rank_values (scipy dense rank, reverse flag), the "
+              "RankResult validator and the kernel: for ALL score vectors, strictly better score <-> strictly smaller rank, "
+              "equal scores <-> equal rank, the set of ranks is exactly 1..k (no gaps), one rank per alternative; validator "
+              "accepts exactly value sets {1..k}; kernel = alternatives nobody outranks. Tie to /repo: every ranking/kernel "
+              "method's own reported score / outranking relation is fed as exact rationals to the extracted model and must "
+              "reproduce rank_/kernel_ exactly; constructors and mkagg against the validator model."),
+        design="§5 C03",
+        note=NOTE_COMMON + "Model: coq/Base/QRank.v, Model/Result.v, Model/Electre.v (kernel).",
+        technique="Coq proof (dense rank over Qc) + exact correspondence on the result's own reported score"),
+    "C04": dict(
+        text=("Theorems over the Q model of the closed-form kernels for ALL inputs: exact characterisation of the refusal "
+              "clauses (WSM/WPM/FMF/MultiMOORA domains), WSM score/rank formula, ideal/reference point is the per-criterion "
+              "optimum and is attained, anti-ideal is the worst, distances non-negative, similarity in [0,1] with =1 iff at "
+              "the ideal and undefined iff both distances are 0. The formulas are the model's definitions; irrational "
+              "closings (sqrt/ln/log10) are evaluated by the harness at 60 digits (partial: no real-valued theorem for them "
+              "in this property file). Tie to /repo: scores, ideal/anti-ideal, reference point, rank matrix, win counts "
+              "compared with the extracted model in an exact and a float regime; refusal stream."),
+        design="§5 C04, §2",
+        note=NOTE_COMMON + "Model: coq/Model/Agg.v. Known finding C04-fmf-allmin-offset is reported as KNOWN-FINDING.",
+        technique="Coq proof over Q model + two-regime differential correspondence with condition-aware margins"),
+    "C06": dict(
+        text=("Theorems for ALL matrices/positive weights: strict monotonicity of the signed weighted sum (RatioMOORA, WSM) "
+              "under dominance, monotonicity of TOPSIS closeness in (d+, d-), better score <-> smaller rank, identical rows "
+              "-> identical scores. Partial: monotonicity of the TOPSIS distances themselves, of ReferencePointMOORA and of "
+              "the logarithmic scores (WPM, FMF) is covered by the correspondence/oracle only. Tie to /repo: injected "
+              "dominating pairs and duplicates, dominance relation cross-checked three ways, scores vs model."),
+        design="§5 C06",
+        note=NOTE_COMMON + "Model: coq/Model/Agg.v, Model/Dominance.v.",
+        technique="Coq proof (monotonicity lemmas over Q) + differential correspondence on injected dominating pairs"),
+})
+
 PENDING_REASON = "check not yet built in this session; planned as described in DESIGN.md §5 (no claim is made until it runs)"
 
 
